@@ -7,6 +7,7 @@ TV = "RsslVerif.Thm.C02Vec."
 TD = "RsslVerif.Thm.C02Dup."
 TX = "RsslVerif.Thm.C02Text."
 TC = "RsslVerif.Thm.C02Call."
+TN = "RsslVerif.Thm.C02Names."
 # the text leg: the tree C02 reasons about reaches the user as text printed by rssl_formatter (Target::Msl).  Printing and
 # reading back is property C09's; its table obligations (re-extracted precedence / associativity / side tables of
 # format_subexpression, the parser's levels, fingerprints of the hand-modelled formatter functions) and its round-trip theorems
@@ -18,6 +19,10 @@ TEXT_THEOREMS = ["right_nested_chain_regrouped_changes_meaning"]
 CALL_THEOREMS = ["user_call_arms_as_modelled", "binds_every_parameter_of_arm", "emitted_call_binds_every_parameter",
                  "every_call_type_has_an_arm", "emitted_call_unchanged_without_globals", "object_counted_as_argument_drops_a_default",
                  "emittedArgCount_eq"]
+# names: the parameter that carries a global has the global's LEAF name; NameMap::build reserves the names of all used functions /
+# globals whatever their namespace (Gen.NameReserve, plugin of C04) and C15's theorem about the local pass is an obligation here
+NAME_THEOREMS = ["used_names_reserved_regardless_of_namespace", "usedNames_any_scope", "threaded_parameter_name_is_no_local"]
+C15_CITED = ["locals_apart_from_used"]
 DUP_THEOREMS = ["dup_sites_guarded", "guard_rows_are_ir_constructors", "repeatable_operand_is_pure_of_sound", "repeatable_operand_is_pure",
                 "struct_cast_meaning_kept", "struct_cast_clauses", "struct_cast_refuses_iff", "tested_operand_is_pure_of_sound",
                 "rem_assign_operands_are_pure", "wf_toD", "repeatable_operand_is_pure_ir_of_sound",
@@ -244,8 +249,8 @@ def custom_vec(ctx):
 
 SPEC = {
     "id": "C02",
-    "gens": ["UsageTables", "MslGenTables", "MslVecTables", "MslDupSites", "MslCallTables", "FmtTables", "ParseTables", "SyntaxTables"],
-    "lean_modules": ["RsslVerif.Thm.C02", "RsslVerif.Thm.C02Sem", "RsslVerif.Thm.C02Vec", "RsslVerif.Thm.C02Dup", "RsslVerif.Thm.C02Text", "RsslVerif.Thm.C02Call",
+    "gens": ["UsageTables", "MslGenTables", "MslVecTables", "MslDupSites", "MslCallTables", "NameReserve", "Reserved", "FmtTables", "ParseTables", "SyntaxTables"],
+    "lean_modules": ["RsslVerif.Thm.C02", "RsslVerif.Thm.C02Sem", "RsslVerif.Thm.C02Vec", "RsslVerif.Thm.C02Dup", "RsslVerif.Thm.C02Text", "RsslVerif.Thm.C02Call", "RsslVerif.Thm.C02Names", "RsslVerif.Thm.C15",
                      "RsslVerif.Thm.C09"],
     "theorems": [T + n for n in [
         "tables_as_modelled", "all_positions_descended", "implicit_names_agree",
@@ -255,7 +260,8 @@ SPEC = {
         "threaded_exactly_partial", "calculateLocal_wf", "closeProgram_ok", "threaded_exactly_program_partial",
         "mentions_calculateLocal", "threaded_exactly",
         "default_arguments_analysed", "global_initialisers_analysed"]] + [TS + n for n in SEM_THEOREMS] + [TV + n for n in VEC_THEOREMS] + [TD + n for n in DUP_THEOREMS]
-                + [TX + n for n in TEXT_THEOREMS] + [TC + n for n in CALL_THEOREMS] + ["RsslVerif.Thm.C09." + n for n in C09_CITED],
+                + [TX + n for n in TEXT_THEOREMS] + [TC + n for n in CALL_THEOREMS] + [TN + n for n in NAME_THEOREMS]
+                + ["RsslVerif.Thm.C15." + n for n in C15_CITED] + ["RsslVerif.Thm.C09." + n for n in C09_CITED],
     "harness": "c02",
     "nontrivial": nontrivial,
     "finding_key": finding_key,
@@ -335,7 +341,8 @@ SPEC = {
             "the module must have as many arguments as some declaration of that name binds (at most its parameters, every parameter beyond "
             "them with a default value). C02.call sends every user call of these modules (call type, number of operands, which parameters "
             "of the callee have a default value, number of parameters the emitted declaration has for globals) to the Lean model of "
-            "generate_user_call's argument list and compares the number of arguments of every emitted call",
+            "generate_user_call's argument list and compares the number of arguments of every emitted call"
+            " Namespaced globals (harness/src/c02/vgenn.rs, programs 3000000.. of the C02.vfn stream): a static / groupshared / extern (constant buffer) global declared inside a namespace (one, nested A::B, reopened), used as N::g directly, only through functions of the namespace, or both, by a function that declares a LOCAL OF THE SAME LEAF NAME in the block of an if, the body of a for, as the for variable, in the outermost block, as a parameter, or two blocks deep after a direct use, plus a caller that only passes the global on; also two globals of one leaf name in different namespaces used by one function; enumerated class x use x place (54) + 6 two-global programs, then random ones (40 quick / 600 thorough). Both evaluators run the static class (a captured use changes return value and final static); in addition a SCOPE ORACLE independent of both evaluators judges every exported module of the stream: inside a function no other parameter and no local declaration (any depth, for initialisers included) has the name of a reference parameter that carries a global of the program",
     "level_text": "Proof of the logic of implicit threading: the usage fixpoint loop (modelled with explicit key iteration "
                   "order, explicit unwrap failures and fuel) is proved for every table to terminate within |keys|^2+1 passes "
                   "without panicking, to compute exactly reachability through the local-use relation independently of the "
@@ -430,8 +437,11 @@ SPEC = {
                   "parameters for globals keeps its defaults and the call is emitted as written; object_counted_as_argument_drops_a_default: the "
                   "table row of seeded mutant C02-6 (object counted as a provided argument) gives `a.scale(x)` the arguments `x, bias` — negation "
                   "witness. WHAT each argument expression means is the business of gen_sem_* (scalar free functions) and of the two evaluators "
-                  "(methods): the call theorems speak about arrangement only.",
+                  "(methods): the call theorems speak about arrangement only. Names of threaded parameters (Thm/C02Names.lean): the parameter that carries a global has the global's LEAF name whatever namespace it lives in; used_names_reserved_regardless_of_namespace (decide on Gen.NameReserve, re-extracted from NameMap::build on every run) states that the usage loop inserts the generated name of every used function / global into used_names_all_scopes under the only condition that the symbol has a generated name (false for seeded mutant C02-7, which added a test of the namespace); threaded_parameter_name_is_no_local (full, every input of C15's model of NameMap::build; instance of the cited C15.locals_apart_from_used) proves that the leaf name of a used global of ANY scope is the printed name of no local variable / parameter, so no declaration in a function that receives the parameter shadows or redeclares it. That two DIFFERENT used globals get different parameter names is NOT proved and false on the real code (known finding threaded-globals-share-a-leaf-name).",
     "trusted_base": [
+        "tools/gens/c04.py (NameReserve: every statement of NameMap::build that mentions used_names_all_scopes with the loops and conditions "
+        "around it) and tools/gens/c15.py (Reserved), both owned by C04 / C15; harness/src/c02/vgenn.rs scope_failures (reads parameter and "
+        "local declaration names off the emitted tree)",
         "Lean 4.33 kernel; axioms propext / Classical.choice / Quot.sound only (audited by #print axioms)",
         "tools/gens/c02.py (UsageTables): match-arm/field inventory of gather_usage_*, regex shape facts about "
         "calculate_local / recurse / analyse_globals / generate_function_inner / append_arguments_for_globals, "
@@ -509,6 +519,11 @@ SPEC = {
         "trusted base for the cited theorems (tools/gens/c09.py, Model/Format*.lean, Model/Parse*.lean)",
     ],
     "assumptions": [
+        "names of threaded parameters: Model.Names (C15's model of NameMap::build, tied to the code by C15's / C04's own streams and Gen.Reserved / "
+        "Gen.NameReserve) is the model the name theorem speaks about; that the Metal exporter names the parameter by the global's generated leaf "
+        "name is observed on every generated program by the scope oracle, not modelled; two used globals of one leaf name in different namespaces "
+        "get the SAME parameter name today (known finding threaded-globals-share-a-leaf-name): the Metal evaluator skips entry points whose "
+        "appended parameter fits two statics, and value differences on a function with two such parameters are attributed to that class",
         "names: every global/function/parameter keeps a distinct Metal name (C15); the model works on indices",
         "'needs' counts default-argument expressions and global initialisers (reading agreed after fixes 2c8592f/1d760f5); "
         "threaded_exactly assumes every mention sits at a place gather_usage_* visits (AllSeen; all_positions_descended "
